@@ -1,7 +1,8 @@
 (* C11 — includes expand in place, in order; splitting a ledger changes nothing.  Theorems only.
    Model: Model/Load.v (Loader::load_impl over an abstract file system), Model/Glob.v
-   (glob::Pattern for literals, ? and * under okane's match options).
-   Spec: Model/LoadSpec.v (expands, cut_of), Model/GlobSpec.v (gmatch). *)
+   (glob::Pattern for literals, ?, * and character classes [...] / [!...] under okane's match
+   options; ** is outside the model).
+   Spec: Model/LoadSpec.v (expands, cut_of), Model/GlobSpec.v (gmatch, in_class, body_lists). *)
 From Coq Require Import List NArith Bool Sorting.Sorted.
 From Okv Require Import Model.Glob Model.GlobSpec Model.Load Model.LoadSpec
   Proofs.GlobProofs Proofs.PathOrder Proofs.LoadProofs Proofs.LoadSplit Proofs.LoadCycle.
@@ -47,14 +48,15 @@ Theorem C11_glob_decides : forall ts s, matches_with ts s = true <-> gmatch true
 Proof. exact matches_with_iff. Qed.
 Print Assumptions C11_glob_decides.
 
-(* `*` and `?` never match "/": a matched path has exactly the pattern's literal separators *)
+(* `*`, `?` and classes never match "/" (not even a class that lists it, or a negated one): a
+   matched path has exactly the pattern's literal separators *)
 Theorem C11_glob_no_separator : forall ts s,
   matches_with ts s = true -> count_sep s = count_sep_tokens ts.
 Proof. exact glob_no_separator. Qed.
 Print Assumptions C11_glob_no_separator.
 
 (* a dot at the start of a component is matched by a literal dot of the pattern, reached from
-   the literal separator through stars that matched nothing: never by `?` or `*` *)
+   the literal separator through stars that matched nothing: never by `?`, `*` or a class *)
 Theorem C11_glob_dotfiles : forall ts a b,
   matches_with ts (a ++ SLASH :: DOT :: b) = true ->
   exists ta stars tb, ts = ta ++ Char SLASH :: stars ++ Char DOT :: tb /\ all_seq stars /\
@@ -67,6 +69,84 @@ Theorem C11_glob_dotfiles_start : forall ts b,
   exists stars tb, ts = stars ++ Char DOT :: tb /\ all_seq stars /\ gmatch false tb b.
 Proof. exact glob_dotfiles_start. Qed.
 Print Assumptions C11_glob_dotfiles_start.
+
+(* a class token stands for exactly one character of the path: one that the class lists (for
+   [!...]: does not list), never "/", never a "." right after a separator (or at the start) *)
+Theorem C11_glob_class : forall cs rest f s,
+  (matches_from (AnyWithin cs :: rest) f s = Match <->
+     exists c s1, s = c :: s1 /\ in_class cs c /\ c <> SLASH /\ ~ (f = true /\ c = DOT) /\
+                  matches_from rest false s1 = Match) /\
+  (matches_from (AnyExcept cs :: rest) f s = Match <->
+     exists c s1, s = c :: s1 /\ ~ in_class cs c /\ c <> SLASH /\ ~ (f = true /\ c = DOT) /\
+                  matches_from rest false s1 = Match).
+Proof. exact glob_class. Qed.
+Print Assumptions C11_glob_class.
+
+Theorem C11_glob_class_alone : forall cs s,
+  (matches_with [AnyWithin cs] s = true <-> exists c, s = [c] /\ in_class cs c /\ c <> SLASH /\ c <> DOT) /\
+  (matches_with [AnyExcept cs] s = true <-> exists c, s = [c] /\ ~ in_class cs c /\ c <> SLASH /\ c <> DOT).
+Proof. exact glob_class_alone. Qed.
+Print Assumptions C11_glob_class_alone.
+
+(* what a written class body lists: `a-b` the characters from a to b (by scalar value, case
+   sensitive), any other character itself *)
+Theorem C11_glob_class_lists : forall body c, in_class (char_specifiers body) c <-> body_lists body c.
+Proof. exact char_specifiers_lists. Qed.
+Print Assumptions C11_glob_class_lists.
+
+(* how a class is written: `[`, a first body character taken as it is (so `]` there is a
+   member), more body characters up to the next `]`; with `!` after the `[`: negated *)
+Theorem C11_glob_class_parse : forall y b rest, y <> BANG -> ~ In RBRACKET b ->
+  parse_pattern (LBRACKET :: y :: b ++ RBRACKET :: rest) =
+  push (AnyWithin (char_specifiers (y :: b))) (parse_pattern rest).
+Proof. exact parse_class. Qed.
+Print Assumptions C11_glob_class_parse.
+
+Theorem C11_glob_class_parse_not : forall x b rest, ~ In RBRACKET b ->
+  parse_pattern (LBRACKET :: BANG :: x :: b ++ RBRACKET :: rest) =
+  push (AnyExcept (char_specifiers (x :: b))) (parse_pattern rest).
+Proof. exact parse_class_not. Qed.
+Print Assumptions C11_glob_class_parse_not.
+
+(* a `[` that is never closed makes the pattern invalid (glob::PatternError), whatever follows
+   it and after any characters other than `*` and `[` ... *)
+Theorem C11_glob_class_unclosed : forall r,
+  match r with
+  | [] => True
+  | y :: b => if y =? BANG
+              then match b with [] => True | _ :: b' => ~ In RBRACKET b' end
+              else ~ In RBRACKET b
+  end ->
+  parse_pattern (LBRACKET :: r) = PatternError.
+Proof. exact parse_class_unclosed. Qed.
+Print Assumptions C11_glob_class_unclosed.
+
+Theorem C11_glob_error_after_plain : forall pre s,
+  Forall (fun c => c <> STAR /\ c <> LBRACKET) pre ->
+  parse_pattern s = PatternError -> parse_pattern (pre ++ s) = PatternError.
+Proof. exact parse_error_after_plain. Qed.
+Print Assumptions C11_glob_error_after_plain.
+
+(* ... and an include with such a pattern ends the load with LoadError::InvalidIncludeGlob, after
+   the entries before it; it has no expansion *)
+Theorem C11_invalid_glob_is_error : forall fs cp dir w,
+  parent cp = Some dir ->
+  parse_pattern (path_string (canonicalize (join dir w))) = PatternError ->
+  forall ld pre post,
+    include_targets fs cp w = inl InvalidIncludeGlob /\
+    load_entries ld fs cp (Inc w :: post) = ([], Failed InvalidIncludeGlob) /\
+    snd (load_entries ld fs cp (pre ++ Inc w :: post)) <> Done /\
+    (forall t, load_entries ld fs cp pre = (t, Done) ->
+       load_entries ld fs cp (pre ++ Inc w :: post) = (t, Failed InvalidIncludeGlob)).
+Proof. exact invalid_glob_is_error. Qed.
+Print Assumptions C11_invalid_glob_is_error.
+
+Theorem C11_invalid_glob_no_expansion : forall fs cp dir w pre post out,
+  wf_fs fs -> parent cp = Some dir ->
+  parse_pattern (path_string (canonicalize (join dir w))) = PatternError ->
+  ~ expands_entries fs cp (pre ++ Inc w :: post) out.
+Proof. exact invalid_glob_no_expansion. Qed.
+Print Assumptions C11_invalid_glob_no_expansion.
 
 (* known finding C11-K1: the in-memory file system lets "*.ledger" match a file named ".ledger"
    (the star matches nothing, the literal dot matches the leading dot); the real file system
@@ -82,7 +162,7 @@ Print Assumptions C11_glob_dotfiles_component.
 
 (* ... and inside them that is false *)
 Theorem C11_glob_dotfiles_component_refuted :
-  exists ts a b, parse_pattern [SLASH; 100; SLASH; STAR; DOT; 108] = Some ts /\
+  exists ts a b, parse_pattern [SLASH; 100; SLASH; STAR; DOT; 108] = Tokens ts /\
     matches_with ts (a ++ SLASH :: DOT :: b) = true /\
     ~ exists ta tb, ts = ta ++ Char SLASH :: Char DOT :: tb.
 Proof. exact glob_dotfiles_component_refuted. Qed.
